@@ -5,6 +5,7 @@ import OvniModel.Lemmas.EmuCoreSteps
   threads, the static part of the emulator, and the outcome of every handler
   in those terms.
 -/
+set_option linter.unusedSimpArgs false
 namespace Ovni.Emu
 
 /-! ### logical state, static part -/
@@ -283,6 +284,399 @@ theorem migrate_outcome {e : Emu} (h : WF e) {ti : Nat} {t : Thread} (ht : e.thr
     have h1 : ∀ cf' : Cpu, (e.cpus.set fr cf')[to]? = some ct := by
       intro cf'; rw [List.getElem?_set_ne hne]; exact hct
     exact (map_static_set (h1 _) (by rfl)).trans (map_static_set hcf (by rfl))
+
+
+/-! ### the initial state -/
+
+theorem chanOK_default : ChanOK ({} : Chan) .null false := ⟨rfl, rfl, rfl, rfl, rfl, rfl, rfl⟩
+theorem chanOK_default_ign : ChanOK ({ ignoreDup := true } : Chan) .null true := ⟨rfl, rfl, rfl, rfl, rfl, rfl, rfl⟩
+
+theorem mkEmu_threads_none (threads : List (Int × Int × Nat)) (cpus : List (Nat × Int × Bool))
+    (enabled : List Nat) (lint : Bool) {i : Nat} {t : Thread}
+    (h : (mkEmu threads cpus enabled lint).threads[i]? = some t) :
+    t.gindex = i ∧ t.state = .unknown ∧ t.cpu = none ∧ t.outOfCpu = false ∧
+    t.chCpu = {} ∧ t.chTid = { ignoreDup := true } ∧ t.chState = {} := by
+  unfold mkEmu at h
+  simp only [List.getElem?_mapIdx] at h
+  cases hx : threads[i]? with
+  | none => simp [hx] at h
+  | some x =>
+    simp [hx] at h
+    subst h
+    exact ⟨rfl, rfl, rfl, rfl, rfl, rfl, rfl⟩
+
+theorem onCpu_mkEmu (threads : List (Int × Int × Nat)) (cpus : List (Nat × Int × Bool))
+    (enabled : List Nat) (lint : Bool) (g : Nat) :
+    onCpu (mkEmu threads cpus enabled lint).threads g = [] := by
+  unfold onCpu
+  rw [List.filter_eq_nil_iff]
+  intro t ht
+  obtain ⟨i, hi⟩ := List.mem_iff_getElem?.mp ht
+  have := (mkEmu_threads_none threads cpus enabled lint hi).2.2.1
+  simp [this]
+
+/-- The emulator built from the hierarchy is well-formed. -/
+theorem wf_mkEmu (threads : List (Int × Int × Nat)) (cpus : List (Nat × Int × Bool))
+    (enabled : List Nat) (lint : Bool) : WF (mkEmu threads cpus enabled lint) := by
+  constructor
+  · intro i t ht
+    obtain ⟨h1, h2, h3, h4, h5, h6, h7⟩ := mkEmu_threads_none threads cpus enabled lint ht
+    refine ⟨h1, ?_, ?_, ?_, ?_, ?_, h4⟩
+    · rw [h7, h2]; exact chanOK_default
+    · rw [h6, h2]; exact chanOK_default_ign
+    · rw [h5, h3]; exact chanOK_default
+    · rw [h3, h2]; simp
+    · intro ci hci; rw [h3] at hci; cases hci
+  · intro g c hc
+    have hon := onCpu_mkEmu threads cpus enabled lint g
+    have hc' := hc
+    unfold mkEmu at hc'
+    simp only [List.getElem?_mapIdx] at hc'
+    cases hx : cpus[g]? with
+    | none => simp [hx] at hc'
+    | some x =>
+      simp [hx] at hc'
+      subst hc'
+      refine ⟨rfl, ⟨List.nodup_nil, ?_⟩, ?_, ?_⟩
+      · intro i
+        constructor
+        · intro h; cases h
+        · rintro ⟨t, ht, hcpu⟩
+          have := (mkEmu_threads_none threads cpus enabled lint ht).2.2.1
+          rw [this] at hcpu; cases hcpu
+      · rw [hon]
+        exact ⟨.null, ⟨chanOK_default_ign, chanOK_default_ign, chanOK_default_ign, chanOK_default_ign,
+          chanOK_default_ign⟩, Or.inr ⟨rfl, rfl⟩⟩
+      · intro _; rw [hon]; exact Nat.zero_le _
+
+
+/-! ### `pre_thread`: the transition table the guards implement -/
+
+/-- the model's transition table, read off the guards of `preThread*` -/
+def modelNext (st : ThState) (v : Nat) : Option ThState :=
+  if v = 120 then (if st = .unknown ∨ st = .dead then some .running else none)
+  else if v = 101 then (if st = .running ∨ st = .cooling then some .dead else none)
+  else if v = 112 then (if st = .running ∨ st = .cooling then some .paused else none)
+  else if v = 114 then (if st = .paused ∨ st = .warming then some .running else none)
+  else if v = 99 then (if st = .running then some .cooling else none)
+  else if v = 119 then (if st = .paused then some .warming else none)
+  else none
+
+/-- the CPU a thread is bound to after OH`v` -/
+def cpuAfter (v : Nat) (cur : Option Nat) (target : Nat) : Option Nat :=
+  if v = 120 then some target else if v = 101 then none else cur
+
+/-- rejected, or accepted with the given logical result -/
+def Verdict (e : Emu) (ti : Nat) (x : Option (ThState × Option Nat)) (r : Except Err Emu) : Prop :=
+  match x with
+  | none => ∃ err, r = .error err
+  | some x => Outcome e ti x r
+
+theorem change_verdict {e : Emu} (h : WF e) {ti : Nat} {t : Thread} (ht : e.threads[ti]? = some t)
+    (ok : ThState → Bool) (st : ThState)
+    (hspec : ∀ s, ok s = true → s ≠ st ∧ s ≠ .unknown ∧ s ≠ .dead) (hl1 : st ≠ .unknown) (hl2 : st ≠ .dead) :
+    Verdict e ti (if ok t.state then some (st, t.cpu) else none) (preThreadChange e ti ok st) := by
+  have hth := h.th ti t ht
+  cases hok : ok t.state with
+  | false => exact ⟨_, preThreadChange_err ht ok st hok⟩
+  | true =>
+    obtain ⟨h1, h2, h3⟩ := hspec _ hok
+    cases hcpu : t.cpu with
+    | none =>
+      rcases hth.cpuIff.mp hcpu with h' | h'
+      · exact absurd h' h2
+      · exact absurd h' h3
+    | some ci => exact change_outcome h ht ok st hcpu hok h1 hl1 hl2
+
+theorem preThread_verdict {e : Emu} (h : WF e) {ti : Nat} {t : Thread} (ht : e.threads[ti]? = some t)
+    {v : Nat} (hv : v ∈ [120, 99, 112, 119, 114, 101]) {payload : List Nat} {ci : Nat}
+    (hx : v = 120 → 4 ≤ payload.length ∧ loomGetCpu e t.loom (i32At payload 0) = some ci) :
+    Verdict e ti ((modelNext t.state v).map fun st' => (st', cpuAfter v t.cpu ci))
+      (preThread e ti v payload) := by
+  have hth := h.th ti t ht
+  simp only [List.mem_cons, List.not_mem_nil, or_false] at hv
+  rcases hv with rfl | rfl | rfl | rfl | rfl | rfl
+  · -- execute
+    obtain ⟨hlen, hci⟩ := hx rfl
+    show Verdict e ti _ (preThreadExecute e ti payload)
+    by_cases hnone : t.cpu = none
+    · have hs := hth.cpuIff.mp hnone
+      have : modelNext t.state 120 = some .running := by unfold modelNext; simp [hs]
+      rw [this]
+      exact execute_outcome h ht hlen hci hnone
+    · have hs : ¬ (t.state = .unknown ∨ t.state = .dead) := fun h' => hnone (hth.cpuIff.mpr h')
+      have : modelNext t.state 120 = none := by unfold modelNext; simp [hs]
+      rw [this]
+      exact preThreadExecute_err_of_cpu h ht payload hnone
+  · -- cool
+    have := change_verdict h ht (fun s => s = .running) .cooling
+      (by intro s hs; simp at hs; subst hs; decide) (by decide) (by decide)
+    show Verdict e ti _ (preThreadChange e ti (fun s => s = .running) .cooling)
+    unfold modelNext cpuAfter
+    by_cases hs : t.state = .running <;> simp [hs] at this ⊢ <;> exact this
+  · -- pause
+    have := change_verdict h ht (fun s => s = .running || s = .cooling) .paused
+      (by intro s hs; simp at hs; rcases hs with hs | hs <;> subst hs <;> decide) (by decide) (by decide)
+    show Verdict e ti _ (preThreadChange e ti (fun s => s = .running || s = .cooling) .paused)
+    unfold modelNext cpuAfter
+    by_cases hs : t.state = .running ∨ t.state = .cooling <;> simp [hs] at this ⊢ <;> exact this
+  · -- warm
+    have := change_verdict h ht (fun s => s = .paused) .warming
+      (by intro s hs; simp at hs; subst hs; decide) (by decide) (by decide)
+    show Verdict e ti _ (preThreadChange e ti (fun s => s = .paused) .warming)
+    unfold modelNext cpuAfter
+    by_cases hs : t.state = .paused <;> simp [hs] at this ⊢ <;> exact this
+  · -- resume
+    have := change_verdict h ht (fun s => s = .paused || s = .warming) .running
+      (by intro s hs; simp at hs; rcases hs with hs | hs <;> subst hs <;> decide) (by decide) (by decide)
+    show Verdict e ti _ (preThreadChange e ti (fun s => s = .paused || s = .warming) .running)
+    unfold modelNext cpuAfter
+    by_cases hs : t.state = .paused ∨ t.state = .warming <;> simp [hs] at this ⊢ <;> exact this
+  · -- end
+    show Verdict e ti _ (preThreadEnd e ti)
+    unfold modelNext cpuAfter
+    by_cases hs : t.state = .running ∨ t.state = .cooling
+    · simp [hs]
+      exact end_outcome h ht hs
+    · simp [hs]
+      have hs' := not_or.mp hs
+      exact ⟨_, preThreadEnd_err ht hs'.1 hs'.2⟩
+
+
+/-! ### affinity events and the dispatch of `model_event` -/
+
+theorem list_set_same {α} {l : List α} {i : Nat} {a : α} (h : l[i]? = some a) : l.set i a = l := by
+  apply List.ext_getElem?
+  intro j
+  by_cases hj : i = j
+  · subst hj; rw [List.getElem?_set_self (lt_of_getElem? h), h]
+  · rw [List.getElem?_set_ne hj]
+
+theorem wf_flushAll {e : Emu} (h : WF e) : WF e.flushAll :=
+  WF.assemble e e.threads e.cpus (fun i t ht => (h.th i t ht).flush) (fun g c hc => (h.cpu g c hc).flush)
+
+/-- a step that changes nothing -/
+theorem outcome_noop {e : Emu} (h : WF e) {ti : Nat} {t : Thread} (ht : e.threads[ti]? = some t) :
+    Outcome e ti (t.state, t.cpu) (.ok e) := by
+  have habs : (absOf e.threads).set ti (t.state, t.cpu) = absOf e.threads := by
+    apply list_set_same
+    unfold absOf; rw [List.getElem?_map, ht]; rfl
+  have hs : StepOK e ti (t.state, t.cpu) e.flushAll := by
+    refine ⟨wf_flushAll h, ?_, SameStatic.flushAll e⟩
+    rw [habs, Emu.flushAll_eq]
+    exact absOf_map_flush _
+  refine ⟨⟨fun _ => hs.noOversub, fun _ => ⟨e, rfl⟩⟩, ?_⟩
+  intro e1 he1; cases he1; exact hs
+
+/-- OAs: the thread must be active; then it is bound to the named CPU -/
+theorem preAffinitySet_verdict {e : Emu} (h : WF e) {ti : Nat} {t : Thread} (ht : e.threads[ti]? = some t)
+    {payload : List Nat} {ci : Nat} (hlen : payload.length = 4)
+    (hci : loomGetCpu e t.loom (i32At payload 0) = some ci) :
+    Verdict e ti (if t.state.isActive then some (t.state, some ci) else none)
+      (preAffinitySet e ti payload) := by
+  have hth := h.th ti t ht
+  unfold preAffinitySet
+  simp only [ht]
+  cases hcpu : t.cpu with
+  | none =>
+    have hs := hth.cpuIff.mp hcpu
+    have : t.state.isActive = false := by rcases hs with hs | hs <;> rw [hs] <;> rfl
+    simp only [this]
+    exact ⟨_, rfl⟩
+  | some cur =>
+    simp only []
+    cases hact : t.state.isActive with
+    | false => exact ⟨_, rfl⟩
+    | true =>
+      have hl : ¬ payload.length ≠ 4 := by simp [hlen]
+      simp only [Bool.not_true, Bool.false_eq_true, if_false, if_true, hl, hci]
+      by_cases hsame : cur = ci
+      · simp only [hsame, if_true]
+        have := outcome_noop h ht
+        rw [hcpu, hsame] at this
+        exact this
+      · simp only [hsame, if_false]
+        obtain ⟨ct, hct, _⟩ := loomGetCpu_some h hci
+        exact migrate_outcome h ht hcpu hsame hct
+
+theorem findRemote_mem {e : Emu} {t r : Thread} {tid : Int} (h : findRemote e t tid = some r) :
+    r ∈ e.threads := by
+  unfold findRemote at h
+  cases h1 : e.threads.find? (fun x => x.loom = t.loom && x.pid = t.pid && x.tid = tid) with
+  | some x => simp only [h1] at h; cases h; exact List.mem_of_find?_eq_some h1
+  | none => simp only [h1] at h; exact List.mem_of_find?_eq_some h
+
+theorem WF.getElem?_of_mem {e : Emu} (h : WF e) {r : Thread} (hr : r ∈ e.threads) :
+    e.threads[r.gindex]? = some r := by
+  obtain ⟨i, hi⟩ := List.mem_iff_getElem?.mp hr
+  rw [(h.th i r hi).gidx]; exact hi
+
+/-- OAr: the target thread must have started and not be dead; it is bound to the named CPU,
+    provided that is not the CPU it already has -/
+theorem preAffinityRemote_verdict {e : Emu} (h : WF e) {ti : Nat} {t : Thread} (ht : e.threads[ti]? = some t)
+    {payload : List Nat} {ci : Nat} {r : Thread} (hlen : payload.length = 8)
+    (hr : findRemote e t (i32At payload 1) = some r)
+    (hci : loomGetCpu e t.loom (i32At payload 0) = some ci) (hdiff : r.cpu ≠ some ci) :
+    Verdict e r.gindex (if r.state = .dead ∨ r.state = .unknown then none else some (r.state, some ci))
+      (preAffinityRemote e ti payload) := by
+  have hrt := h.getElem?_of_mem (findRemote_mem hr)
+  have hth := h.th _ r hrt
+  unfold preAffinityRemote
+  have hl : ¬ payload.length ≠ 8 := by simp [hlen]
+  simp only [ht, hl, if_false, hr]
+  by_cases hd : r.state = .dead
+  · simp only [hd, if_true, true_or]; exact ⟨_, rfl⟩
+  by_cases hu : r.state = .unknown
+  · simp only [hd, hu, if_true, if_false, or_true]; exact ⟨_, rfl⟩
+  simp only [hd, hu, if_false, or_self]
+  cases hcpu : r.cpu with
+  | none =>
+    rcases hth.cpuIff.mp hcpu with h' | h'
+    · exact absurd h' hu
+    · exact absurd h' hd
+  | some cur =>
+    simp only [hci]
+    obtain ⟨ct, hct, _⟩ := loomGetCpu_some h hci
+    have hne : cur ≠ ci := by intro h'; apply hdiff; rw [hcpu, h']
+    exact migrate_outcome h hrt hcpu hne hct
+
+/-- The model (like the implementation) rejects a remote affinity change whose target is the
+    CPU the thread is already bound to. -/
+theorem preAffinityRemote_same_cpu_err {e : Emu} (h : WF e) {ti : Nat} {t : Thread}
+    (ht : e.threads[ti]? = some t) {payload : List Nat} {ci : Nat} {r : Thread}
+    (hr : findRemote e t (i32At payload 1) = some r)
+    (hci : loomGetCpu e t.loom (i32At payload 0) = some ci) (hsame : r.cpu = some ci) :
+    ∃ err, preAffinityRemote e ti payload = .error err := by
+  have hrt := h.getElem?_of_mem (findRemote_mem hr)
+  unfold preAffinityRemote
+  simp only [ht]
+  by_cases hl : payload.length ≠ 8
+  · rw [if_pos hl]; exact ⟨_, rfl⟩
+  rw [if_neg hl]
+  simp only [hr]
+  by_cases hd : r.state = .dead
+  · simp only [hd, if_true]; exact ⟨_, rfl⟩
+  by_cases hu : r.state = .unknown
+  · simp only [hd, hu, if_true, if_false]; exact ⟨_, rfl⟩
+  simp only [hd, hu, if_false, hsame, hci]
+  exact migrate_same_cpu_err h hrt hsame
+
+
+theorem findSpec_ovni : ∃ s, findSpec 79 = some s := ⟨specOvni, rfl⟩
+
+variable (th mh : Emu → Nat → Nat → Nat → List Nat → Except Err Emu)
+
+theorem modelEvent_ovni {e : Emu} (hen : e.enabled.contains 79 = true) (ti c v : Nat) (payload : List Nat) :
+    modelEvent e ti 79 c v payload th mh = ovniEvent e ti c v payload (fun e ti v p => mh e ti c v p) := by
+  obtain ⟨s, hs⟩ := findSpec_ovni
+  unfold modelEvent
+  simp only [hs, hen]
+  rfl
+
+theorem modelEvent_OH {e : Emu} (h : WF e) (hen : e.enabled.contains 79 = true) {ti : Nat} {t : Thread}
+    (ht : e.threads[ti]? = some t) (v : Nat) (payload : List Nat) :
+    modelEvent e ti 79 72 v payload th mh = preThread e ti v payload := by
+  rw [modelEvent_ovni th mh hen]
+  unfold ovniEvent
+  simp only [ht, (h.th ti t ht).inCpu]
+  rfl
+
+theorem modelEvent_OAs {e : Emu} (h : WF e) (hen : e.enabled.contains 79 = true) {ti : Nat} {t : Thread}
+    (ht : e.threads[ti]? = some t) (payload : List Nat) :
+    modelEvent e ti 79 65 115 payload th mh = preAffinitySet e ti payload := by
+  rw [modelEvent_ovni th mh hen]
+  unfold ovniEvent
+  simp only [ht, (h.th ti t ht).inCpu]
+  rfl
+
+theorem modelEvent_OAr {e : Emu} (h : WF e) (hen : e.enabled.contains 79 = true) {ti : Nat} {t : Thread}
+    (ht : e.threads[ti]? = some t) (payload : List Nat) :
+    modelEvent e ti 79 65 114 payload th mh = preAffinityRemote e ti payload := by
+  rw [modelEvent_ovni th mh hen]
+  unfold ovniEvent
+  simp only [ht, (h.th ti t ht).inCpu]
+  rfl
+
+theorem modelEvent_nothread {e : Emu} (hen : e.enabled.contains 79 = true) {ti : Nat}
+    (ht : e.threads[ti]? = none) (c v : Nat) (payload : List Nat) :
+    modelEvent e ti 79 c v payload th mh = .error .other := by
+  rw [modelEvent_ovni th mh hen]
+  unfold ovniEvent
+  simp only [ht]
+  rfl
+
+
+/-! ### `finish` -/
+
+theorem finish_ok_iff (e : Emu) :
+    finish e = .ok () ↔ (∀ t ∈ e.threads, t.state = .dead) ∧ (e.lint && lintOpen e) = false := by
+  unfold finish
+  by_cases h1 : e.threads.any (fun t => t.state ≠ .dead) = true
+  · simp only [h1, if_true]
+    constructor
+    · intro h; cases h
+    · rintro ⟨h, _⟩
+      rw [List.any_eq_true] at h1
+      obtain ⟨t, ht, hd⟩ := h1
+      simp [h t ht] at hd
+  · simp only [h1, if_false]
+    have hall : ∀ t ∈ e.threads, t.state = .dead := by
+      intro t ht
+      rw [List.any_eq_true] at h1
+      by_cases hd : t.state = .dead
+      · exact hd
+      · exact absurd ⟨t, ht, by simp [hd]⟩ h1
+    by_cases h2 : (e.lint && lintOpen e) = true
+    · simp only [h2, if_true]
+      constructor
+      · intro h; cases h
+      · rintro ⟨_, h⟩; cases h
+    · simp only [h2, if_false]
+      exact ⟨fun _ => ⟨hall, by simp at h2; simp [h2]⟩, fun _ => rfl⟩
+
+/-- the lint predicate of one thread, as a function of its static part -/
+def lintQ (m i : Nat) (k : List (Nat × List (List Value))) : Bool :=
+  match (k.find? (·.1 == m)).map (·.2) with
+  | some vs => decide ((vs.getD i []).length > 0)
+  | none => false
+
+theorem getD_map_vals (cs : List Chan) (i : Nat) : (cs.map Chan.vals).getD i [] = (cs.getD i {}).vals := by
+  simp only [List.getD_eq_getElem?_getD, List.getElem?_map]
+  cases cs[i]? <;> rfl
+
+theorem lintP_eq (m i : Nat) (t : Thread) :
+    (match t.getChans m with
+      | some cs => decide ((cs.getD i {}).vals.length > 0)
+      | none => false) = lintQ m i t.static.2.2.2.2.2 := by
+  unfold lintQ Thread.getChans Thread.static
+  simp only [List.find?_map]
+  have : ((fun x : Nat × List (List Value) => x.1 == m) ∘ fun x : Nat × List Chan => (x.1, x.2.map Chan.vals)) =
+      (fun x : Nat × List Chan => x.1 == m) := rfl
+  rw [this]
+  cases t.mch.find? (fun x => x.1 == m) with
+  | none => rfl
+  | some x => simp only [Option.map_some]; rw [getD_map_vals]
+
+theorem lintOpen_static {e e' : Emu} (h : SameStatic e e') : lintOpen e' = lintOpen e := by
+  unfold lintOpen
+  rw [h.enabled]
+  congr 1
+  funext spec
+  congr 1
+  cases spec.lintChan with
+  | none => rfl
+  | some i =>
+    simp only
+    have key : ∀ (P : Thread → Bool), (∀ t, P t = lintQ spec.char i t.static.2.2.2.2.2) → ∀ a : Emu,
+        a.threads.any P = (a.threads.map Thread.static).any (fun s => lintQ spec.char i s.2.2.2.2.2) := by
+      intro P hP a
+      rw [List.any_map]
+      congr 1
+      funext t
+      exact hP t
+    refine Eq.trans (key _ (fun t => lintP_eq spec.char i t) e') (Eq.trans ?_
+      (key _ (fun t => lintP_eq spec.char i t) e).symm)
+    rw [h.threads]
 
 
 end Ovni.Emu
